@@ -130,9 +130,14 @@ class KeysView(SeqV):
 
 # ---------------------------------------------------------------------------------------------------------------- world
 class XWorld(World):
+    """World that also knows  T("enum", spec)  (Int-coded enumeration values) and  T("codec", c)  (contract-defined element types:
+    c.sort, c.box(world, value) -> term, c.unbox(world, term) -> value)"""
+
     def sort_of(self, t):
         if t.kind == "enum":
             return z3.IntSort()
+        if t.kind == "codec":
+            return t.args[0].sort
         return super().sort_of(t)
 
     def box(self, v, t):
@@ -140,6 +145,8 @@ class XWorld(World):
             if isinstance(v, OpV):
                 v = v.kind
             return enum_term(v, t.args[0])
+        if t.kind == "codec":
+            return t.args[0].box(self, v)
         return super().box(v, t)
 
     def unbox(self, term, t):
@@ -147,6 +154,8 @@ class XWorld(World):
             e = EnumV(term, t.args[0])
             wrap = t.kw.get("wrap")
             return wrap(e) if wrap else e
+        if t.kind == "codec":
+            return t.args[0].unbox(self, term)
         return super().unbox(term, t)
 
 
